@@ -1,5 +1,6 @@
-(* C10 — small models of sites that ARE reachable on the unchanged tree (known findings), each with
-   the refuting witness and the statement that holds for the proposed repair. *)
+(* C10 — small models of sites that WERE reachable (findings of this property, since repaired in
+   /repo: commits 03ad279 and 4ff7631), each with the refuting witness for the old code and the
+   statement that holds for the code as it is now. *)
 From Coq Require Import ZArith String List Bool Lia.
 From NV Require Import Crash.Outcome Crash.Index.
 Import ListNotations.
@@ -18,7 +19,7 @@ Definition pretty_print_cap (widths : list Z) (max_width : Z) : outcome (list Z)
     do _ <- unwrap "pretty_print_cap: output.char_indices().nth(max_width).unwrap()" (nthZ max_width widths);
     Val (takeZ max_width widths).
 
-(* repair (proposed/C10-pretty-print-cap.diff): no character beyond max_width = nothing to cut *)
+(* since commit 03ad279: no character beyond max_width = nothing to cut *)
 Definition pretty_print_cap_fixed (widths : list Z) (max_width : Z) : outcome (list Z) :=
   match nthZ max_width widths with
   | None => Val widths
@@ -81,7 +82,7 @@ Definition literal_callback (l : list ch) : outcome (list ch) :=
   let n := normalize l in
   if has_cr n then Panic "normalize_line_endings: debug_assert!(normalized.find('\r').is_none())" else Val n.
 
-(* repair (proposed/C10-lexer-lone-cr.diff): no assertion, the handler reports a lexical error *)
+(* since commit 4ff7631: no assertion, the handler reports a lexical error *)
 Definition literal_handler_fixed (l : list ch) : outcome (list ch) :=
   let n := normalize l in
   if has_cr n then Error "LexicalError::Generic" else Val n.
